@@ -227,10 +227,11 @@ Qed.
 (* ---------------- (c) arithmetic on the grid ---------------- *)
 Definition add_ok (j : float) (x : fval) : Prop :=
   exists j1 dl, e_add (ep j) x = ep j1 /\ mkE [VFloat (j + off_float x)%float] = ep j1 /\
-    e_radd (ep j) x = ep j1 /\ e_sub (ep j1) (ep j) = VFloat dl /\
+    e_radd (ep j) x = ep j1 /\ e_iadd (ep j) x = ep j1 /\ e_sub (ep j1) (ep j) = VFloat dl /\
     (abs (dl - off_float x) <=? tol8)%float = true.
 Definition sub_ok (j : float) (x : fval) : Prop :=
   exists j2 dl, e_sub (ep j) x = ep j2 /\ mkE [VFloat (j - off_float x)%float] = ep j2 /\
+    e_isub (ep j) x = ep j2 /\
     e_sub (ep j) (ep j2) = VFloat dl /\ (abs (dl - off_float x) <=? tol8)%float = true.
 Definition arith_ok (j : float) (x : fval) : Prop :=
   (in_range (j + off_float x) = true -> add_ok j x) /\ (in_range (j - off_float x) = true -> sub_ok j x).
